@@ -245,6 +245,15 @@ pub fn random_packet(rng: &mut Rng) -> Vec<u8> {
             let t = train(&pdu, &label, reuse, ptype, id, &cuts);
             t[rng.below(t.len())].ser()
         }
+        6 if rng.chance(1, 2) => {
+            // a well-formed chain of optional extensions ending at a boundary protocol type
+            let mut p = complete(&pdu, &label, reuse, *rng.pick(&[0x0100u16, 0x0211, 0x0322]));
+            let dl = 2 * ((p.ptype >> 8) as usize - 1);
+            let mut chain = rng.bytes(dl);
+            chain.extend(rng.pick(&[0x0600u16, 0x0601, 0x0800, 0xFFFF, 0x0600]).to_be_bytes());
+            p.chain = chain;
+            p.ser()
+        }
         6 => {
             // extension chain with random content
             let mut p = complete(&pdu, &label, reuse, *rng.pick(&[0x0100u16, 0x0211, 0x0322, 0x0433, 0x0544, 0x0042, 0x0043, 0x0081]));
@@ -433,6 +442,17 @@ pub fn faults(out: &mut Out, seed: u64, thorough: bool) {
                 run_faulty(out, &mut rng, "swap", &prelude, &v);
             }
         }
+        // a copy of fragment i inserted at every other position (early end fragments, late first fragments ...)
+        for i in 0..pk.len() {
+            for j in 0..=pk.len() {
+                if j == i || j == i + 1 {
+                    continue;
+                }
+                let mut v = pk.clone();
+                v.insert(j, pk[i].clone());
+                run_faulty(out, &mut rng, "copy_to", &prelude, &v);
+            }
+        }
         // every single-bit flip of every packet (quick: every 3rd bit)
         for i in 0..pk.len() {
             for bit in 0..pk[i].len() * 8 {
@@ -554,6 +574,28 @@ pub fn faults(out: &mut Out, seed: u64, thorough: bool) {
         v.push(pk[pk.len() - 1].clone());
         run_faulty(out, &mut rng, "replay_end", &prelude, &v);
     }
+    // tiny PDUs (0..3 bytes, first fragment possibly empty, CRC-only end) with *every* announced total length
+    // around the true one and a CRC computed over the fields actually sent
+    for n in 0..=3usize {
+        for label in [vec![1u8, 2, 3, 4, 5, 6], vec![7u8, 7, 7], vec![]] {
+            let pdu = rng.bytes(n);
+            let true_tl = (n + 2 + label.len()) as u16;
+            for cuts in [vec![0usize], vec![n], vec![0, n]] {
+                for tl2 in 0..=(true_tl + 3) {
+                    if tl2 == true_tl && cuts.len() == 1 && cuts[0] == 0 {
+                        continue;
+                    }
+                    let mut tt = train(&pdu, &label, false, 0x0800, 4, &cuts);
+                    // drop empty intermediates (not well formed)
+                    tt.retain(|p| !(p.kind == 0 && p.payload.is_empty()));
+                    tt[0].tl = tl2;
+                    let last = tt.len() - 1;
+                    tt[last].crc = crc32_mpeg(&[&tl2.to_be_bytes(), &0x0800u16.to_be_bytes(), &label, &pdu]);
+                    run_faulty(out, &mut rng, "tiny_crafted_tl", &[], &tt.iter().map(|p| p.ser()).collect::<Vec<_>>());
+                }
+            }
+        }
+    }
     // storage > 65535 bytes and a train longer than 65535 bytes (16-bit length arithmetic)
     big_train(out, &mut rng);
 }
@@ -668,6 +710,7 @@ fn merges(counts: &[usize]) -> Vec<Vec<usize>> {
 
 pub fn interleave(out: &mut Out, seed: u64, thorough: bool) {
     let mut rng = Rng::new(seed ^ 0x171E);
+    interleave_special(out, &mut rng, thorough);
     let shapes: Vec<(usize, Vec<usize>)> = if thorough {
         vec![(2, vec![2, 2]), (2, vec![3, 3]), (3, vec![2, 2, 2]), (3, vec![3, 2, 2]), (4, vec![2, 2, 2, 2]), (3, vec![3, 3])]
     } else {
@@ -756,7 +799,8 @@ pub fn interleave(out: &mut Out, seed: u64, thorough: bool) {
                 let pkt = &made[*ti].pkts[pos[*ti]];
                 pos[*ti] += 1;
                 let is_end = pos[*ti] == counts[*ti];
-                let extra = if is_end { vec![("of", made[*ti].pdu.id.to_string())] } else { vec![] };
+                let mut extra = if is_end { vec![("of", made[*ti].pdu.id.to_string())] } else { vec![] };
+                extra.push(("ilv", "true".to_string()));
                 feed(out, &mut rx, pkt, extra);
             }
             rx.ev_drain(out);
@@ -791,6 +835,106 @@ pub fn interleave(out: &mut Out, seed: u64, thorough: bool) {
         feed(out, &mut rx, &b.pkts[2], vec![("of", b.pdu.id.to_string())]);
         feed(out, &mut rx, &a.pkts[2], vec![]); // stale end of the abandoned train
         rx.ev_drain(out);
+    }
+}
+
+/// fragment `pdu` into exactly three packets without touching the sender's label memory
+fn frags3(out: &mut Out, enc: &mut Encapsulator<DefaultCrc>, pdu: &Pdu, id: u8, label: Label) -> Option<Vec<Vec<u8>>> {
+    let n = pdu.bytes.len();
+    let t = ev_encap(out, enc, pdu, id, label, 0x0800, 13 + n / 3, None, None);
+    let c1 = match t.res {
+        Some(Ok(EncapStatus::FragmentedPkt(_, c))) => c,
+        _ => return None,
+    };
+    let t2 = ev_encap_frag(out, enc, pdu, &c1, 3 + n / 3);
+    let c2 = match t2.res {
+        Some(Ok(EncapStatus::FragmentedPkt(_, c))) => c,
+        _ => return None,
+    };
+    let t3 = ev_encap_frag(out, enc, pdu, &c2, 200);
+    match t3.res {
+        Some(Ok(EncapStatus::CompletedPkt(_))) => Some(vec![t.wire, t2.wire, t3.wire]),
+        _ => None,
+    }
+}
+
+fn interleave_special(out: &mut Out, rng: &mut Rng, thorough: bool) {
+    // (1) a memory with one slot per fragment id: ids 0, 255 and 128 never share a slot
+    for rep in 0..(if thorough { 12 } else { 4 }) {
+        let mgr = std_mgr();
+        out.begin("interleave", Obj::new().str("what", "slots256").boolean("lock", false).raw("rx", &jrxcfg(256, PDU_SIZE, &mgr).end()));
+        let mut enc = Encapsulator::new(DefaultCrc {});
+        enc.disable_re_use_label();
+        ev_cfg(out, &mut enc, Cfg::Disable);
+        let ids = [0u8, 255, 128];
+        let mut made = vec![];
+        for id in ids {
+            let pdu = Pdu::random(out, rng.range(9, 40), rng);
+            match frags3(out, &mut enc, &pdu, id, LA6) {
+                Some(p) => made.push((pdu, p)),
+                None => {}
+            }
+        }
+        if made.len() != 3 {
+            continue;
+        }
+        let mut rx: Rx<DefaultCrc> = Rx::new(256, PDU_SIZE, DefaultCrc {}, mgr);
+        for i in 0..4 {
+            rx.ev_provision(out, PDU_SIZE + i);
+        }
+        for id in ids {
+            rx.note_id(id);
+        }
+        let all = merges(&[3, 3, 3]);
+        let m = &all[(rep * 211 + 17) % all.len()];
+        let mut pos = [0usize; 3];
+        for ti in m {
+            let pkt = &made[*ti].1[pos[*ti]];
+            pos[*ti] += 1;
+            let mut extra = if pos[*ti] == 3 { vec![("of", made[*ti].0.id.to_string())] } else { vec![] };
+            extra.push(("ilv", "true".to_string()));
+            feed(out, &mut rx, pkt, extra);
+        }
+        rx.ev_drain(out);
+    }
+    // (2) two PDUs with the same label and re-use enabled: the second first fragment carries the re-use
+    // marker; stray intermediate / end packets of unknown or aliasing ids at every position must not make
+    // the receiver forget the label
+    for stray_kind in 0..4usize {
+        for stray_pos in 0..6usize {
+            let mgr = std_mgr();
+            out.begin("interleave", Obj::new().str("what", "reuse_across_trains").boolean("lock", false).raw("rx", &jrxcfg(2, PDU_SIZE, &mgr).end()));
+            let mut enc = Encapsulator::new(DefaultCrc {});
+            let a = Pdu::random(out, rng.range(9, 40), rng);
+            let b = Pdu::random(out, rng.range(9, 40), rng);
+            let pa = frags3(out, &mut enc, &a, 20, LA6);
+            let pb = frags3(out, &mut enc, &b, 21, LA6);
+            let (pa, pb) = match (pa, pb) {
+                (Some(x), Some(y)) => (x, y),
+                _ => continue,
+            };
+            let mut rx: Rx<DefaultCrc> = Rx::new(2, PDU_SIZE, DefaultCrc {}, mgr);
+            for i in 0..3 {
+                rx.ev_provision(out, PDU_SIZE + i);
+            }
+            rx.note_id(20);
+            rx.note_id(21);
+            // train A's first fragment comes first, then the two trains alternate
+            let order: [(usize, usize); 6] = [(0, 0), (1, 0), (0, 1), (1, 1), (0, 2), (1, 2)];
+            for (k, (ti, pi)) in order.iter().enumerate() {
+                if k == stray_pos {
+                    let sid = [9u8, 22, 23, 250][stray_kind];
+                    rx.note_id(sid);
+                    let s = P { kind: if stray_kind % 2 == 0 { 1 } else { 0 }, lt: 3, fragid: sid, tl: 0, ptype: 0, label: vec![], chain: vec![], payload: vec![1, 2, 3], crc: 5, gse_len: None };
+                    feed(out, &mut rx, &s.ser(), vec![("ilv", "true".to_string())]);
+                }
+                let pkt = if *ti == 0 { &pa[*pi] } else { &pb[*pi] };
+                let mut extra = if *pi == 2 { vec![("of", (if *ti == 0 { a.id } else { b.id }).to_string())] } else { vec![] };
+                extra.push(("ilv", "true".to_string()));
+                feed(out, &mut rx, pkt, extra);
+            }
+            rx.ev_drain(out);
+        }
     }
 }
 
